@@ -5,6 +5,7 @@
 #include "algops.h"
 #include "csops.h"
 #include "iterops.h"
+#include "enbops.h"
 #ifdef VERIF_WITH_BALANCE
 #include "balops.h"
 #endif
@@ -304,6 +305,7 @@ static void doCall(State &s, Toks &t) {
 #ifdef VERIF_WITH_BALANCE
   } else if (balCall(name, t, m, s.q, s.qd, o)) {
 #endif
+  } else if (enbCall(name, m, s.q, s.qd, s.tau, fe, o)) {   // C12 energy balance: harness/enbops.h
   } else if (iterCall(name, t, m, s.C, s.q, o)) {
   } else if (csCall(name, t, m, s.C, s.q, s.qd, s.qdd, s.tau, fe, o)) {
   } else {
